@@ -27,14 +27,17 @@ pub struct Plan {
     pub bufreader_cap: usize,
     /// use `&[u8]` as the reader (the path the unit tests use); ignores every other field
     pub slice: bool,
+    /// the hard I/O error is transient: it is returned once, after which the source delivers the rest
+    /// (what `std::io::BufReader` over a timed-out socket does)
+    pub io_once: bool,
 }
 
 impl Plan {
     pub fn slice() -> Plan {
-        Plan { cuts: vec![], eintr: vec![], fault: Fault::None, bufreader_cap: 0, slice: true }
+        Plan { cuts: vec![], eintr: vec![], fault: Fault::None, bufreader_cap: 0, slice: true, io_once: false }
     }
     pub fn whole() -> Plan {
-        Plan { cuts: vec![], eintr: vec![], fault: Fault::None, bufreader_cap: 0, slice: false }
+        Plan { cuts: vec![], eintr: vec![], fault: Fault::None, bufreader_cap: 0, slice: false, io_once: false }
     }
     pub fn is_trivial(&self) -> bool {
         self.slice || (self.cuts.is_empty() && self.eintr.is_empty() && self.fault == Fault::None && self.bufreader_cap == 0)
@@ -52,6 +55,9 @@ impl Plan {
             Fault::Truncate { at } => o.put("fault", J::obj().set("truncate", J::Bool(true)).set("at", J::Int(*at as i64))),
         }
         o.put("bufreader_cap", J::Int(self.bufreader_cap as i64));
+        if self.io_once {
+            o.put("io_once", J::Bool(true));
+        }
         o
     }
     pub fn from_j(j: &J) -> Result<Plan, String> {
@@ -70,6 +76,7 @@ impl Plan {
             p.fault = if let Some(J::Str(k)) = f.get("io") { Fault::Io { at, kind: k.clone() } } else { Fault::Truncate { at } };
         }
         p.bufreader_cap = j.int_of("bufreader_cap")? as usize;
+        p.io_once = matches!(j.get("io_once"), Some(J::Bool(true)));
         Ok(p)
     }
 
@@ -197,6 +204,7 @@ pub struct SimReader<'a> {
     calls: usize,
     budget: usize,
     end: usize,
+    io_done: bool,
     pub stats: ReadStats,
     /// log of every fill_buf outcome, for the trace hash
     pub log: crate::rng::Fnv,
@@ -210,7 +218,7 @@ impl<'a> SimReader<'a> {
         };
         // logical time bound: termination within a stated number of reader steps (C07 liveness)
         let budget = 64 + 8 * data.len() + plan.eintr.len() + 4 * 256;
-        SimReader { data, plan, pos: 0, chunk_end: 0, calls: 0, budget, end, stats: ReadStats::default(), log: crate::rng::Fnv::new() }
+        SimReader { data, plan, pos: 0, chunk_end: 0, calls: 0, budget, end, io_done: false, stats: ReadStats::default(), log: crate::rng::Fnv::new() }
     }
     fn next_chunk_end(&self) -> usize {
         // first cut strictly greater than pos, else end
@@ -240,7 +248,8 @@ impl<'a> BufRead for SimReader<'a> {
             return Ok(&self.data[self.pos..self.chunk_end]);
         }
         if let Fault::Io { at, kind } = &self.plan.fault {
-            if self.pos >= (*at).min(self.data.len()) {
+            if self.pos >= (*at).min(self.data.len()) && !(self.plan.io_once && self.io_done) {
+                self.io_done = true;
                 self.stats.io_fired += 1;
                 self.log.u64(u64::MAX - 1);
                 return Err(io::Error::new(kind_of(kind), "simulated I/O failure"));
@@ -256,7 +265,7 @@ impl<'a> BufRead for SimReader<'a> {
         }
         let mut ce = self.next_chunk_end();
         if let Fault::Io { at, .. } = &self.plan.fault {
-            // bytes before the fault point are delivered, nothing after it
+            // bytes before the fault point are delivered first; what follows comes only after the error
             if *at > self.pos {
                 ce = ce.min(*at);
             }
